@@ -30,7 +30,7 @@ def confirm(seed):
     rc, out = sh("git -C /repo worktree add -q --detach %s HEAD" % wt)
     res = {"head": sh("git -C /repo rev-parse --short HEAD")[1].strip()}
     try:
-        patch = os.path.abspath(os.path.join(seed, "patch.diff"))
+        patch = os.path.abspath(os.path.join(seed, "patch_newhead.diff" if os.path.exists(os.path.join(seed, "patch_newhead.diff")) else "patch.diff"))
         rc, out = sh("git apply --check %s && git apply %s" % (patch, patch), cwd=wt)
         res["applies"] = rc == 0
         if rc != 0:
@@ -58,7 +58,7 @@ def confirm(seed):
     return res
 
 def detect(seed, checks, tier):
-    patch = os.path.abspath(os.path.join(seed, "patch.diff"))
+    patch = os.path.abspath(os.path.join(seed, "patch_newhead.diff" if os.path.exists(os.path.join(seed, "patch_newhead.diff")) else "patch.diff"))
     rc, out = sh("git -C /repo status --porcelain")
     if out.strip():
         return {"error": "/repo working tree is not clean: " + out}
